@@ -85,8 +85,16 @@ const lsize = 2
 // dinfo is the FileInfo behind a DirEntry handed out by ReadDir (lstat-like).
 type dinfo struct{ info }
 
+func (i dinfo) Mode() fs.FileMode {
+	if i.n.Kind == "symdir" {
+		return fs.ModeSymlink | 0o777 // the entry itself is a symlink; Stat() follows it
+	}
+	return i.info.Mode()
+}
+func (i dinfo) IsDir() bool { return false || i.n.Kind == "dir" }
+
 func (i dinfo) Size() int64 {
-	if i.n.Kind == "sym" {
+	if i.n.Kind == "sym" || i.n.Kind == "symdir" {
 		return lsize
 	}
 	return i.n.Size
@@ -98,7 +106,7 @@ func (i info) Name() string { return i.n.Name }
 func (i info) Size() int64  { return i.n.Size }
 func (i info) Mode() fs.FileMode {
 	switch i.n.Kind {
-	case "dir":
+	case "dir", "symdir":
 		return fs.ModeDir | 0o755
 	case "sym":
 		return fs.ModeSymlink | 0o777
@@ -118,7 +126,7 @@ func (i info) Mode() fs.FileMode {
 	return 0o644
 }
 func (i info) ModTime() time.Time { return time.Time{} }
-func (i info) IsDir() bool        { return i.n.isDir() }
+func (i info) IsDir() bool        { return i.n.isDir() || i.n.Kind == "symdir" }
 func (i info) Sys() any           { return nil }
 
 func (m *memFS) content(n *Node) []byte {
